@@ -482,8 +482,13 @@ pub fn spaces_axes(ctx: &Ctx, base: &BaseTables) {
         vec![seg(WGHT, 100, 200), seg(WGHT, 500, 600)],
         vec![seg(WGHT, 100, 300), seg(WGHT, 200, 400)],
         vec![seg(OPSZ, 10, 10)],
+        // one wide segment spanning several definition segments; interleaving segments; the same on two axes
+        vec![seg(WGHT, 100, 900)],
+        vec![seg(WGHT, 100, 250), seg(WGHT, 280, 650), seg(WGHT, 680, 900)],
+        vec![seg(WGHT, 100, 900), seg(WDTH, 40, 120)],
     ];
     let axis = |t: TagB, a: i32, b: i32| (t, vec![(fx(a), fx(b))]);
+    let multi = |t: TagB, v: &[(i32, i32)]| (t, v.iter().map(|(a, b)| (fx(*a), fx(*b))).collect::<Vec<_>>());
     let ds_defs: Vec<DDs> = vec![
         DDs::Ranges(vec![]),
         DDs::All,
@@ -495,6 +500,12 @@ pub fn spaces_axes(ctx: &Ctx, base: &BaseTables) {
         DDs::Ranges(vec![axis(OPSZ, 10, 10)]),
         DDs::Ranges(vec![(WGHT, vec![(fx(150), fx(160)), (fx(520), fx(900))])]),
         DDs::Ranges(vec![axis(*b"slnt", -10, 0)]),
+        // two / three disjoint segments on one axis, on two axes, and touching entry segment boundaries
+        DDs::Ranges(vec![multi(WGHT, &[(200, 300), (600, 700)])]),
+        DDs::Ranges(vec![multi(WGHT, &[(200, 300), (400, 500), (600, 700)])]),
+        DDs::Ranges(vec![multi(WGHT, &[(200, 300), (600, 700)]), multi(WDTH, &[(50, 60), (90, 110)])]),
+        DDs::Ranges(vec![multi(WGHT, &[(50, 100), (400, 400), (900, 950)])]),
+        DDs::Ranges(vec![multi(WGHT, &[(260, 270), (660, 670), (950, 960)]), multi(WDTH, &[(10, 40), (120, 130)])]),
     ];
     let mut defs = vec![];
     for cps in [DCps::Set(vec![A]), DCps::Set(vec![])] {
